@@ -105,3 +105,86 @@ Qed.
 
 Theorem getbytes_spec b : (zlen b mod 8 <> 0 -> bs_getbytes b = Err ValueError) /\ (zlen b mod 8 = 0 -> bs_getbytes b = Ok (tobytes b)).
 Proof. unfold bs_getbytes. split; intros H; destruct (zlen b mod 8 =? 0) eqn:E; try reflexivity; lia. Qed.
+
+(* ---------- the methods that honour modified_length factor through the content too ---------- *)
+Lemma clamp_id v n lo up : 0 <= v -> v <= up -> clamp_index v n lo up = v.
+Proof. intros H0 H1. unfold clamp_index. destruct (v <? 0) eqn:E; [lia|]. destruct (v >? up) eqn:E2; [lia|reflexivity]. Qed.
+
+Lemma slice_indices_bounds k n a b c : 0 <= n -> slice_indices k n = Ok (a, b, c) ->
+  c <> 0 /\ (0 < c -> 0 <= a <= n /\ 0 <= b <= n) /\ (c < 0 -> -1 <= a <= n - 1 /\ -1 <= b <= n - 1).
+Proof.
+  intros Hn. unfold slice_indices. destruct k as [ks ke kst]; cbn [s_step s_start s_stop].
+  set (st := match kst with None => 1 | Some s => s end).
+  destruct (st =? 0) eqn:E0; [discriminate|]. intros H.
+  assert (Hc : c = st) by congruence. subst c.
+  destruct (st <? 0) eqn:Es.
+  - split; [lia|]. split; [lia|]. intros _.
+    assert (Ha : a = match ks with None => n - 1 | Some v => clamp_index v n (-1) (n - 1) end) by congruence.
+    assert (Hb : b = match ke with None => -1 | Some v => clamp_index v n (-1) (n - 1) end) by congruence.
+    subst a b. unfold clamp_index. split.
+    + destruct ks as [v|]; [|lia]. destruct (v <? 0) eqn:?; [destruct (v + n <? -1) eqn:?|destruct (v >? n - 1) eqn:?]; lia.
+    + destruct ke as [v|]; [|lia]. destruct (v <? 0) eqn:?; [destruct (v + n <? -1) eqn:?|destruct (v >? n - 1) eqn:?]; lia.
+  - split; [lia|]. split; [|lia]. intros _.
+    assert (Ha : a = match ks with None => 0 | Some v => clamp_index v n 0 n end) by congruence.
+    assert (Hb : b = match ke with None => n | Some v => clamp_index v n 0 n end) by congruence.
+    subst a b. unfold clamp_index. split.
+    + destruct ks as [v|]; [|lia]. destruct (v <? 0) eqn:?; [destruct (v + n <? 0) eqn:?|destruct (v >? n) eqn:?]; lia.
+    + destruct ke as [v|]; [|lia]. destruct (v <? 0) eqn:?; [destruct (v + n <? 0) eqn:?|destruct (v >? n) eqn:?]; lia.
+Qed.
+
+Lemma range_len_empty_neg b c : c < 0 -> -1 <= b -> range_len (-1) b c = 0.
+Proof. intros Hc Hb. unfold range_len. destruct (c >? 0) eqn:E; [lia|]. destruct (b <? -1) eqn:E2; [lia|reflexivity]. Qed.
+
+Theorem getslice_withstep_content s k : wf s ->
+  st_getslice_withstep_msb0 s k = seq_slice false (bits_of s) k.
+Proof.
+  intros Hw. rewrite (wf_raw s Hw). unfold st_getslice_withstep_msb0. unfold wf in Hw.
+  destruct (mlen s) as [n|]; [|reflexivity]. subst n.
+  set (l := raw s). assert (Hn : 0 <= zlen l) by apply zlen_nonneg.
+  unfold seq_slice at 5.
+  destruct (slice_indices k (zlen l)) as [[[a b] c]|e] eqn:Hsi; [|reflexivity]. cbn [bind].
+  destruct (slice_indices_bounds k (zlen l) a b c Hn Hsi) as (Hc0 & Hpos & Hneg).
+  destruct (c <? 0) eqn:Ec.
+  - destruct Hneg as [Ha Hb]; [lia|].
+    destruct (a <? 0) eqn:Ea.
+    + assert (a = -1) by lia. subst a. unfold range_list. rewrite range_len_empty_neg by lia. cbn [Z.to_nat progression map].
+      unfold seq_slice, slice_indices. cbn [s_step s_start s_stop]. destruct (c =? 0) eqn:E0; [lia|]. rewrite Ec. cbn [bind].
+      unfold range_list, range_len. destruct (c >? 0) eqn:E1; [lia|].
+      match goal with |- context [?x <? ?x] => replace (x <? x) with false by lia end. reflexivity.
+    + destruct (b <? 0) eqn:Eb.
+      * assert (b = -1) by lia. subst b.
+        unfold seq_slice, slice_indices. cbn [s_step s_start s_stop]. destruct (c =? 0) eqn:E0; [lia|]. rewrite Ec.
+        rewrite clamp_id by lia. reflexivity.
+      * unfold seq_slice, slice_indices. cbn [s_step s_start s_stop]. destruct (c =? 0) eqn:E0; [lia|]. rewrite Ec.
+        rewrite !clamp_id by lia. reflexivity.
+  - destruct Hpos as [Ha Hb]; [lia|].
+    unfold seq_slice, slice_indices. cbn [s_step s_start s_stop]. destruct (c =? 0) eqn:E0; [lia|]. rewrite Ec.
+    rewrite !clamp_id by lia. reflexivity.
+Qed.
+
+Theorem getslice_content s a b : wf s ->
+  st_getslice_msb0 s a b = seq_slice false (bits_of s) (mkslice a b None).
+Proof.
+  intros Hw. rewrite (wf_raw s Hw). unfold st_getslice_msb0. unfold wf in Hw.
+  destruct (mlen s) as [n|]; [|reflexivity]. subst n.
+  set (l := raw s). assert (Hn : 0 <= zlen l) by apply zlen_nonneg.
+  unfold seq_slice at 2.
+  destruct (slice_indices (mkslice a b None) (zlen l)) as [[[x y] c]|e] eqn:Hsi; [|reflexivity]. cbn [bind].
+  destruct (slice_indices_bounds _ (zlen l) x y c Hn Hsi) as (Hc0 & Hpos & Hneg).
+  assert (c = 1) by (unfold slice_indices in Hsi; cbn [s_step] in Hsi; cbn in Hsi; congruence). subst c.
+  destruct Hpos as [Hx Hy]; [lia|].
+  unfold seq_slice, slice_indices. cbn [s_step s_start s_stop]. cbn [Z.eqb Z.ltb Z.compare]. rewrite !clamp_id by lia. reflexivity.
+Qed.
+
+Theorem tobytes_content s : wf s -> st_tobytes s = tobytes (bits_of s).
+Proof.
+  intros Hw. rewrite (wf_raw s Hw). unfold st_tobytes. unfold wf in Hw.
+  destruct (mlen s) as [n|]; [|reflexivity]. subst n.
+  pose proof (zlen_nonneg (raw s)) as Hn.
+  assert (E : seq_slice false (raw s) (mkslice None (Some (zlen (raw s))) None) =
+              seq_slice false (raw s) (mkslice (Some 0) (Some (zlen (raw s))) None)).
+  { unfold seq_slice, slice_indices. cbn [s_step s_start s_stop]. cbn [Z.eqb Z.ltb Z.compare].
+    rewrite (clamp_id 0) by lia. reflexivity. }
+  rewrite E. rewrite (seq_slice_unit false (raw s) 0 (zlen (raw s))) by lia.
+  unfold sub. cbn [Z.to_nat skipn]. rewrite Z.sub_0_r. unfold zlen. rewrite Nat2Z.id, firstn_all. reflexivity.
+Qed.
